@@ -10,8 +10,12 @@
 (*                closure calls Sender.Replicate, which OVERWRITES the     *)
 (*                WAL sequence:  entry.Sequence = s.sequence.Add(1)        *)
 (*    Enqueue     select { case s.entryChan <- entry: default: drop+count }*)
-(*  (Atomic = TRUE merges SndAssign and Enqueue into one step: the shape   *)
-(*   of the proposed repair.)                                              *)
+(*  Atomic = TRUE (the code since fix d5f2c74): Replicate holds            *)
+(*  s.enqueueMu across sequence.Add and the non-blocking send, so          *)
+(*  SndAssign and Enqueue are ONE step.  Atomic = FALSE is the shape       *)
+(*  before the fix; it is kept as a negative control (MC_ctl_aswritten.cfg *)
+(*  is expected to violate HealthyNeverDropped, Gen_ctl_aswritten.cfg      *)
+(*  supplies the schedules that would realise it if the fix regressed).    *)
 (*  distributor (Sender.distributionLoop):                                 *)
 (*    Dequeue     entry := <-s.entryChan                                   *)
 (*    Broadcast   sendToReader: tag under the session key, cumulative hash *)
@@ -19,7 +23,9 @@
 (*                CheckpointInterval entries a checkpoint frame carrying   *)
 (*                (running hash, entry.Sequence) under the cluster secret  *)
 (*  wire adversary (between the sender and the reader, budget MaxAdv):     *)
-(*    Flip / Dup / Drop / Swap / Splice / ReplayCp on whole frames         *)
+(*    Flip / Dup / Drop / Swap / Splice / ReplayCp on whole frames, and    *)
+(*    the composite DelayCps (every checkpoint held back until after the   *)
+(*    entry that follows it -- one step, it is one adversary policy)       *)
 (*  receiver (Receiver.receiveLoop, checks in the order they are written): *)
 (*    entry:      tag valid under the session key for (seq, payload)       *)
 (*                else drop; seq <= lastSeq -> drop; else hash += payload, *)
@@ -39,13 +45,13 @@ CONSTANTS NProd,        \* concurrent producer goroutines
           BufSize,      \* capacity of Sender.entryChan
           CpInterval,   \* SenderConfig.CheckpointInterval
           MaxAdv,       \* adversary step budget
+          AdvKinds,     \* which adversary operations are enabled (subset of AllAdvKinds)
           Atomic,       \* TRUE: sequence assignment and enqueue are one step (repair shape)
           Eager,        \* TRUE: Dequeue is urgent (the driver cannot delay the channel receive)
           Emit          \* TRUE: print one TRACE line per terminal state
 
 P == 1..NProd
 PayOf(p, k) == p * 10 + k              \* unique payload id of producer p's k-th entry
-NoFrame == [t |-> "n", seq |-> 0, pay |-> 0, tag |-> [key |-> "K", seq |-> 0, pay |-> 0], hash |-> <<>>, mhash |-> <<>>]
 
 VARIABLES pc, cnt, wseq, sseq, mine,       \* producers
           queue, hand, wdropped, enq,      \* sender queue, distributor, reported drops, history of enqueued entries
@@ -151,10 +157,11 @@ AdvStep(op, w) ==
     /\ phase' = "adv"
     /\ WriterUnch /\ RecvUnch
 
-AdvEnabled == ProduceDone /\ phase \in {"produce", "adv"} /\ advN < MaxAdv /\ Len(wire) > 0
+AllAdvKinds == {"flip", "dup", "drop", "swap", "splice", "replaycp", "delaycps"}
+AdvOn(k) == ProduceDone /\ phase \in {"produce", "adv"} /\ advN < MaxAdv /\ Len(wire) > 0 /\ k \in AdvKinds
 
 Flip ==
-    /\ AdvEnabled
+    /\ AdvOn("flip")
     /\ \E i \in 1..Len(wire) :
          LET f == wire[i] IN
          \/ \E v \in (1..(sseq + 1)) \ {f.seq} :                       \* sequence / last_seq field altered
@@ -167,17 +174,17 @@ Flip ==
          \/ AdvStep([op |-> "flip", i |-> i, j |-> 0, fld |-> "tag"], [wire EXCEPT ![i].tag.key = "X"])
 
 Dup ==
-    /\ AdvEnabled
+    /\ AdvOn("dup")
     /\ \E i \in 1..Len(wire) : \E j \in i..Len(wire) :
          /\ wire[i].t = "e"
          /\ AdvStep([op |-> "dup", i |-> i, j |-> j, fld |-> ""], Ins(wire, j, wire[i]))
 
 DropF ==
-    /\ AdvEnabled
+    /\ AdvOn("drop")
     /\ \E i \in 1..Len(wire) : AdvStep([op |-> "drop", i |-> i, j |-> 0, fld |-> ""], Del(wire, i))
 
 Swap ==
-    /\ AdvEnabled
+    /\ AdvOn("swap")
     /\ \E i \in 1..(Len(wire) - 1) :
          AdvStep([op |-> "swap", i |-> i, j |-> i + 1, fld |-> ""],
                  [wire EXCEPT ![i] = wire[i + 1], ![i + 1] = wire[i]])
@@ -185,19 +192,33 @@ Swap ==
 \* a frame that is valid under ANOTHER session key (recorded from a different connection), or a
 \* forged frame with no valid tag, inserted after position i
 Splice ==
-    /\ AdvEnabled
+    /\ AdvOn("splice")
     /\ \E i \in 0..Len(wire) : \E s \in 1..(sseq + 1) : \E k \in {"O", "X"} :
          AdvStep([op |-> "splice", i |-> i, j |-> s, fld |-> k],
                  Ins(wire, i, [t |-> "e", seq |-> s, pay |-> 0,
                                tag |-> [key |-> k, seq |-> s, pay |-> 0], hash |-> <<>>, mhash |-> <<>>]))
 
 ReplayCp ==
-    /\ AdvEnabled
+    /\ AdvOn("replaycp")
     /\ \E i \in 1..Len(wire) : \E j \in i..Len(wire) :
          /\ wire[i].t = "c"
          /\ AdvStep([op |-> "replaycp", i |-> i, j |-> j, fld |-> ""], Ins(wire, j, wire[i]))
 
-Adversary == Flip \/ Dup \/ DropF \/ Swap \/ Splice \/ ReplayCp
+\* composite: the adversary holds every checkpoint frame back until the entry that follows it has
+\* gone through (a checkpoint with nothing behind it stays where it is).  Alone it only reorders;
+\* combined with DropF it is the schedule that tries to hide a removed entry from the checkpoints.
+RECURSIVE DelayAll(_)
+DelayAll(w) ==
+    IF Len(w) < 2 THEN w
+    ELSE IF w[1].t = "c" /\ w[2].t = "e" THEN <<w[2], w[1]>> \o DelayAll(SubSeq(w, 3, Len(w)))
+    ELSE <<w[1]>> \o DelayAll(Tail(w))
+
+DelayCps ==
+    /\ AdvOn("delaycps")
+    /\ DelayAll(wire) # wire
+    /\ AdvStep([op |-> "delaycps", i |-> 0, j |-> 0, fld |-> ""], DelayAll(wire))
+
+Adversary == Flip \/ Dup \/ DropF \/ Swap \/ Splice \/ ReplayCp \/ DelayCps
 
 StartRecv ==
     /\ ProduceDone /\ phase \in {"produce", "adv"}
